@@ -136,6 +136,7 @@ class Ctx:
         self.harness_errors: List[str] = []
         self.cases_run: Dict[str, int] = {}
         self.info: Dict[str, Any] = {}
+        self.stats: Dict[str, float] = {}   # worst observed error / tolerance
         self._sample_kinds: Dict[str, int] = {}
         self.classify: Optional[Callable] = None
 
@@ -191,6 +192,27 @@ class Ctx:
         """Register the structural signature of a non-trivial case."""
         self.sigs.add(sig_hash(sig))
 
+    def stat(self, name: str, value: float) -> None:
+        """Track the maximum of `value` (typically observed error divided by
+        the tolerance: < 1 means head-room)."""
+        v = float(value)
+        if v == v and v > self.stats.get(name, -1.0):
+            self.stats[name] = v
+
+    def within(self, monitor: str, err: float, tol: float, cls=None,
+               detail=None) -> bool:
+        """ev(monitor, err <= tol) + statistics of err / tol."""
+        err = float(err)
+        self.stat(monitor, err / tol if tol > 0 else (0.0 if err == 0 else float("inf")))
+        ok = err <= tol     # NaN fails
+        if not ok and detail is not None:
+            d0 = detail
+            detail = lambda: {**(d0() if callable(d0) else d0),
+                              "error": err, "tolerance": tol}
+        elif not ok:
+            detail = {"error": err, "tolerance": tol}
+        return self.ev(monitor, ok, cls=cls, detail=detail)
+
     def tally(self, name: str, n: int = 1) -> None:
         self.tallies[name] = self.tallies.get(name, 0) + n
 
@@ -224,7 +246,8 @@ class Ctx:
                 "tallies": self.tallies, "samples": self.samples,
                 "viol_count": self.viol_count, "witnesses": self.witnesses,
                 "harness_errors": self.harness_errors,
-                "cases_run": self.cases_run, "info": self.info}
+                "cases_run": self.cases_run, "info": self.info,
+                "stats": self.stats}
 
     def absorb(self, d: dict) -> None:
         for k, v in d["monitor_evals"].items():
@@ -247,6 +270,8 @@ class Ctx:
             self.cases_run[k] = self.cases_run.get(k, 0) + v
         for k, v in d.get("info", {}).items():
             self.info.setdefault(k, v)
+        for k, v in d.get("stats", {}).items():
+            self.stat(k, v)
 
 
 def case_rng(seed: int, gen: str, idx: int):
@@ -360,6 +385,7 @@ def finish(mod, ctx: Ctx, t0: float, nworkers: int, dead_workers: List[str]
             "violation_classes": {k: ctx.viol_count[k] for k in new_viol},
             "inconclusive_reasons": inconclusive[:20],
             "info": ctx.info,
+            "worst_error_over_tolerance": {k: float("%.3g" % min(v, 1e300)) for k, v in sorted(ctx.stats.items())},
             "provenance": provenance(),
         },
         "assumptions": getattr(mod, "ASSUMPTIONS", []),
